@@ -136,6 +136,7 @@ type fakeIDP struct {
 	// accessJWT: "" = opaque access tokens; otherwise access tokens are JWTs (Keycloak style, realm roles):
 	// "good", "garbage" (not a JWT), "other-key" (signed by another key), "roles-wrong-type", "aud-other"
 	accessJWT        string
+	advertisedPKCE   []string // nil = ["S256","plain"]
 	accessJWTRefresh string // same, for the access token returned by the refresh grant ("" = follow accessJWT)
 	refreshNonce    string // nonce claim to put into refreshed ID tokens of sessions the harness crafted itself
 	ownKey *rsa.PrivateKey // when set: this IdP's signing key (instead of the shared main key)
@@ -212,8 +213,14 @@ func (p *fakeIDP) dispatch(w http.ResponseWriter, r *http.Request, ep string, fo
 	switch ep {
 	case "/.well-known/openid-configuration":
 		w.Header().Set("Content-Type", "application/json")
-		fmt.Fprintf(w, `{"issuer":"%s","authorization_endpoint":"%s/authorize","token_endpoint":"%s/token","jwks_uri":"%s/keys","userinfo_endpoint":"%s/userinfo","id_token_signing_alg_values_supported":["RS256"],"code_challenge_methods_supported":["S256","plain"]}`,
-			p.url(), p.url(), p.url(), p.url(), p.url())
+		fmt.Fprintf(w, `{"issuer":"%s","authorization_endpoint":"%s/authorize","token_endpoint":"%s/token","jwks_uri":"%s/keys","userinfo_endpoint":"%s/userinfo","id_token_signing_alg_values_supported":["RS256"],"code_challenge_methods_supported":%s}`,
+			p.url(), p.url(), p.url(), p.url(), p.url(), func() string {
+				if p.advertisedPKCE == nil {
+					return `["S256","plain"]`
+				}
+				b, _ := json.Marshal(p.advertisedPKCE)
+				return string(b)
+			}())
 	case "/keys", "/.well-known/jwks.json":
 		p.mu.Lock()
 		p.jwksCalls++
